@@ -24,7 +24,7 @@ MOD = 'checks.c13_blob'
 UNDONE = [['bwrite', 'B'], ['commit'], ['undo', 0]]
 KINDS = ['bwrite', 'bappend', 'consume', 'linkN', 'modp', 'savepoint',
          'rollback', 'commit', 'abort', 'rival', 'commit-vote-fail', 'undo',
-         'pack']
+         'undo-abort', 'pack']
 
 
 def make_spec(cfg):
@@ -66,12 +66,17 @@ class BlobWorld:
         self.dir = env.new_dir('bw')
         self.blob_dir = os.path.join(self.dir, 'blobs')
         FS = env.mod('ZODB.FileStorage.FileStorage').FileStorage
+        BS = env.mod('ZODB.blob').BlobStorage
         if kind == 'Fb':
             self.storage = FS(os.path.join(self.dir, 'Data.fs'),
                               blob_dir=self.blob_dir)
+        elif kind == 'BF':
+            # the blob wrapper around a storage without blob support of its
+            # own
+            self.storage = BS(self.blob_dir,
+                              FS(os.path.join(self.dir, 'Data.fs')))
         else:
             MS = env.mod('ZODB.MappingStorage').MappingStorage
-            BS = env.mod('ZODB.blob').BlobStorage
             self.storage = BS(self.blob_dir, MS())
         self.db = env.mod('ZODB.DB').DB(self.storage)
         self.tm = transaction.TransactionManager()
@@ -114,6 +119,14 @@ class BlobWorld:
         self.c3 = self.db.open(self.tm3)
         self._oid_of = {'B': self.blobs['B']._p_oid}
         self.dead_files = {}
+        # files written by BlobStorage.undo (the wrapper's own copy loop):
+        # it leaves them writable, and it also copies the bytes of an undone
+        # *creation* under the undo tid although that transaction holds no
+        # revision of the blob.  Neither is something C13 forbids (content
+        # is compared at every state; the stray copy goes at the next
+        # pack), see DESIGN.md 8.
+        self.wrapper_copies = set()
+        self.optional_files = {}
 
     def newbytes(self):
         self.vcount += 1
@@ -169,7 +182,14 @@ class BlobWorld:
             elif k == 'commit-vote-fail':
                 if self.joined:
                     ops.append((k,))
+            elif k == 'undo-abort':
+                if not self.joined and len(self.txn_log) >= 2 and \
+                        self.kind != 'BM':
+                    ops += [('undo-abort', i) for i in range(
+                        min(2, len(self.txn_log) - 1))]
             elif k == 'undo':
+                if self.kind == 'BM':
+                    continue
                 if not self.joined and len(self.txn_log) >= 2:
                     # (undoing the undo of a blob's creation would bring a
                     # dead incarnation back: outside the modelled alphabet)
@@ -318,10 +338,28 @@ class BlobWorld:
             return self._commit(k)
         if k == 'undo':
             return self._undo(op[1])
+        if k == 'undo-abort':
+            # start undoing, then abort: nothing may change
+            UE = env.mod('ZODB.POSException').UndoError
+            tid, wrote = self.txn_log[-1 - op[1]]
+            from base64 import encodebytes
+            try:
+                self.db.undo(encodebytes(tid).rstrip(), self.tm.get())
+                # the undo is performed by the data manager at commit time:
+                # run the first phase, then abort
+                self.tm.get().join(connworld.FailingRM('vote'))
+                try:
+                    self.tm.commit()
+                except (RuntimeError, UE):
+                    pass
+            finally:
+                self.tm.abort()
+            return 'undo-abort'
         if k == 'pack':
             self.db.pack(env.CLOCK.now)
             self.packed_upto = self.storage.lastTransaction()
             self.dead_files.clear()
+            self.optional_files.clear()
             for mb in m.values():
                 if mb.revs:
                     if mb.c_in_root:
@@ -426,6 +464,18 @@ class BlobWorld:
                 mb = m[n]
                 prev = [r for r in mb.revs if r[0] < tid]
                 data = prev[-1][1] if prev else None
+                if self.kind == 'BF':
+                    o = self.blobs[n]._p_oid if mb.owned \
+                        else self._oid_of.get(n)
+                    if o is not None:
+                        rel = os.path.relpath(
+                            self.storage.fshelper.getBlobFilename(o, utid),
+                            self.blob_dir)
+                        self.wrapper_copies.add(rel)
+                        if data is None:
+                            was = [r for r in mb.revs if r[0] == tid]
+                            if was:
+                                self.optional_files[rel] = was[-1][1]
                 mb.revs.append((utid, data))
                 w2[n] = data
                 if data is None:
@@ -486,6 +536,9 @@ class BlobWorld:
         want.update(self.dead_files)
         n += 1
         in_txn = self.joined
+        for rel, data in self.optional_files.items():
+            if rel in files:
+                want[rel] = data
         extra = sorted(set(files) - set(want))
         missing = sorted(set(want) - set(files))
         if missing:
@@ -501,7 +554,8 @@ class BlobWorld:
                     self.bad('bytes', 'committed-file-content', dict(
                         file=rel, expected=data, got=got[:60]))
                 mode = os.stat(files[rel]).st_mode
-                if mode & (stat.S_IWUSR | stat.S_IWGRP | stat.S_IWOTH):
+                if mode & (stat.S_IWUSR | stat.S_IWGRP | stat.S_IWOTH) \
+                        and rel not in self.wrapper_copies:
                     self.bad('immutable', 'committed-file-writable',
                              dict(file=rel, mode=oct(mode)))
         if not in_txn:
@@ -604,12 +658,14 @@ def run(rep, tier, seed, workers):
         'non-trivial = sequence of at least two steps')
     states = 0
     plan = [dict(prop='C13', kind='Fb', d=depth),
-            dict(prop='C13', kind='Fb', d=depth - 1, start=UNDONE)]
+            dict(prop='C13', kind='Fb', d=depth - 1, start=UNDONE),
+            dict(prop='C13', kind='BF', d=depth - 1),
+            dict(prop='C13', kind='BM', d=depth - 1)]
     for cfg in plan:
         d = cfg.pop('d')
         fps = seqx.explore(rep, MOD, cfg, d, workers, seed, split=2)
         states += len(fps)
-        rep.bounds['Fb depth%s' % (' after rewrite+commit+undo'
+        rep.bounds['%s depth%s' % (cfg['kind'], ' after rewrite+commit+undo'
                                    if cfg.get('start') else '')] = d
     rep.cov['states'] = max(states, 1)
     rep.assumptions = [
